@@ -733,7 +733,7 @@ class QSeparableConv1D(SeparableConv1D, PrunableLayer):
 
   def call(self, inputs):
     if self.padding == 'causal':
-      inputs = array_ops.pad(inputs, self._compute_causal_padding())
+      inputs = array_ops.pad(inputs, self._compute_causal_padding(inputs))
 
     spatial_start_dim = 1 if self.data_format == 'channels_last' else 2
 
